@@ -1081,10 +1081,14 @@ type concurrentCase struct {
 	Injected bool     `json:"injected"` // request k+1 runs entirely inside request k's window between the registry miss and the pull (getorcreate.missed)
 	Digest   bool     `json:"digest"`   // the camera challenges DESCRIBE once
 	Audio    bool     `json:"audio"`
+	// Failing != "": the camera does not deliver ("describe-404" | "describe-eof" |
+	// "options-rst" | "setup-500"): every one of the simultaneous requests gets its
+	// not-found answer, none hangs, nothing stays registered (after seeded change C20-R6B)
+	Failing string `json:"failing_camera,omitempty"`
 }
 
 func (c *concurrentCase) key() string {
-	return fmt.Sprintf("modes=%v injected=%v digest=%v audio=%v", c.Modes, c.Injected, c.Digest, c.Audio)
+	return fmt.Sprintf("modes=%v injected=%v digest=%v audio=%v failing=%s", c.Modes, c.Injected, c.Digest, c.Audio, c.Failing)
 }
 
 type concurrentResult struct {
@@ -1103,8 +1107,35 @@ func concurrent(cc *concurrentCase) *concurrentResult {
 	if cc.Digest {
 		sc.Steps[fakecam.Describe] = fakecam.Behaviour{Kind: fakecam.Digest401, N: 1}
 	}
+	switch cc.Failing {
+	case "describe-404":
+		sc.Steps[fakecam.Describe] = fakecam.Behaviour{Kind: fakecam.Status, Code: 404}
+	case "describe-eof":
+		sc.Steps[fakecam.Describe] = fakecam.Behaviour{Kind: fakecam.EOF}
+	case "options-rst":
+		sc.Steps[fakecam.Options] = fakecam.Behaviour{Kind: fakecam.RST}
+	case "setup-500":
+		sc.Steps[fakecam.SetupVideo] = fakecam.Behaviour{Kind: fakecam.Status, Code: 500}
+	}
 	frames := fakecam.SimpleFrames(4000, cc.Audio)
-	cam, err := fakecam.Start(fakecam.Script{Steps: sc.Steps, User: sc.User, Pass: sc.Pass, SDP: mediah.SDP(esgen.H264, cc.Audio), Frames: frames, Initial: 2, StrictSetup: true})
+	// A failing camera is slow to fail: it holds its reaction at the failing step back
+	// until every requester has been started and has had its chance to look the path
+	// up (they all find the first pull still in progress), or for 300 ms.
+	script := fakecam.Script{Steps: sc.Steps, User: sc.User, Pass: sc.Pass, SDP: mediah.SDP(esgen.H264, cc.Audio), Frames: frames, Initial: 2, StrictSetup: true}
+	allStarted := make(chan struct{})
+	if cc.Failing != "" && !cc.Injected {
+		failStep := map[string]fakecam.Step{"describe-404": fakecam.Describe, "describe-eof": fakecam.Describe, "options-rst": fakecam.Options, "setup-500": fakecam.SetupVideo}[cc.Failing]
+		script.Gate = func(step fakecam.Step) {
+			if step == failStep {
+				select {
+				case <-allStarted:
+					time.Sleep(30 * time.Millisecond) // stimulus only: the other requesters reach their lookup
+				case <-time.After(300 * time.Millisecond):
+				}
+			}
+		}
+	}
+	cam, err := fakecam.Start(script)
 	if err != nil {
 		res.failf("harness", "camera did not start: %v", err)
 		return res
@@ -1170,6 +1201,7 @@ func concurrent(cc *concurrentCase) *concurrentResult {
 			}(i)
 		}
 		close(start)
+		close(allStarted)
 		go func() { wg.Wait(); close(finished) }()
 	}
 	select {
@@ -1178,7 +1210,10 @@ func concurrent(cc *concurrentCase) *concurrentResult {
 		media.VerifSetSched(nil)
 		res.failf("requester-hangs", "simultaneous requests for %s did not all return within %v:\n%s", reqPath, 4*bound, stacksMatching("c20."))
 		cam.Close()
-		<-finished
+		select {
+		case <-finished:
+		case <-time.After(bound): // requesters that are stuck for good are left behind: the case has failed already
+		}
 		return res
 	}
 	media.VerifSetSched(nil)
@@ -1191,6 +1226,21 @@ func concurrent(cc *concurrentCase) *concurrentResult {
 		}
 	}
 	res.pulls = cam.ConnCount()
+	if cc.Failing != "" {
+		for i, r := range rets {
+			if r.outcome == "stream" {
+				res.failf("stream-from-failing-camera", "simultaneous request %d (%s) was handed a stream although the camera fails (%s); camera saw: %s", i+1, cc.Modes[i], cc.Failing, renderConns(cam.Conns()))
+			}
+		}
+		if reg := media.Get(canon); reg != nil && !mediah.WaitFor(bound, func() bool { return media.Get(canon) == nil }) {
+			res.failf("registered-after-failure", "a stream is registered under %s although every pull failed (%s)", canon, cc.Failing)
+		}
+		for _, rq := range rqs {
+			rq.release()
+		}
+		cleanupChecks(&res.result, sc, base, cam, canon, nil, false)
+		return res
+	}
 	for i, r := range rets {
 		if r.outcome != "stream" {
 			res.failf("pull-fails", "simultaneous request %d (%s) against a healthy camera ended with %q %s; camera saw: %s", i+1, cc.Modes[i], r.outcome, r.detail, renderConns(cam.Conns()))
